@@ -547,6 +547,12 @@ class AnimGen:
                 s = s[:-1]
         return s
 
+    def fixed_name(self, size):
+        # a fixed-size, NUL-padded field: only the padding at the end is not part of the name
+        if self.rng.random() < 0.25:
+            return self.rng.choice(["L\x00FOOT", "\x00X", "a\x00b\x00c", "x" * size, "\x00" * 3 + "y"])[:size]
+        return self.name(size)
+
     def animation(self, version):
         import hippolyzer.lib.base.llanim as la
         from hippolyzer.lib.base.multidict import OrderedMultiDict
@@ -570,7 +576,7 @@ class AnimGen:
         for _ in range(r.randrange(0, 3)):
             cons.append(la.Constraint(
                 chain_length=r.choice([0, 1, 3, 255]), type=r.choice(list(la.ConstraintType)),
-                source_volume=self.name(16), source_offset=self.vec(-2, 2, (0.0,)), target_volume=self.name(16),
+                source_volume=self.fixed_name(16), source_offset=self.vec(-2, 2, (0.0,)), target_volume=self.fixed_name(16),
                 target_offset=self.vec(-2, 2, (0.0,)), target_dir=self.vec(-1, 1, (0.0, 1.0)),
                 ease_in_start=self.f(0, 5, (0.0,)), ease_in_stop=self.f(0, 5), ease_out_start=self.f(0, 5), ease_out_stop=self.f(0, 5)))
         return la.Animation(
